@@ -301,11 +301,18 @@ func NewClientConfig() *ClientConfig {
 			}, nil)
 		},
 		CompSelector: func(options []SessionCompression) SessionCompression {
+			if len(options) == 0 {
+				// The server offered nothing to choose from
+				return SessionCompressionNone
+			}
 			return options[0]
 		},
 		EncryptSelector: func(options []SessionEncryption) SessionEncryption {
 			if contains(options, SessionEncryptionTLS) {
 				return SessionEncryptionTLS
+			}
+			if len(options) == 0 {
+				return SessionEncryptionNone
 			}
 			return options[0]
 		},
